@@ -163,11 +163,19 @@ def gen(args):
     if len({s["label"] for s in asym}) != len(asym):
         for i, s in enumerate(asym):
             s["label"] = "%s%d" % (xtal.SYMBOLS[s["z"]], i + 1)
-    gram = xtal.sym_gram(row["ops"], rng)
+    gram = xtal.oblique_gram(rng) if (row["number"] <= 2 and rng.random() < 0.5) else xtal.sym_gram(row["ops"], rng)
     vol = max(len(row["ops"]) * len(asym) * 15.0, 80.0)
-    return {"number": row["number"], "choice": row["choice"], "n": n, "gram": gram,
-            "u": (vol / math.sqrt(xtal.det3(gram))) ** (1 / 3.0), "asym": asym, "fmt": fmt, "via": via, "provenance": prov,
-            "route": rng.choice(["params", "vectors"])}
+    u = (vol / math.sqrt(xtal.det3(gram))) ** (1 / 3.0)
+    if rng.random() < 0.2:
+        # large cells: the longest edge between 25 and 99 Angstrom (fixed-width number fields get full)
+        u = rng.uniform(25.0, 99.0) / math.sqrt(max(gram[i][i] for i in range(3)))
+    rec = {"number": row["number"], "choice": row["choice"], "n": n, "gram": gram, "u": u, "asym": asym, "fmt": fmt, "via": via,
+           "provenance": prov, "route": rng.choice(["params", "vectors"])}
+    if fmt == "poscar" and rng.random() < 0.4:
+        # a POSCAR stores lattice vectors: the crystal may hold them in any orientation
+        from harness.c13 import rand_rotation
+        rec["route"], rec["rot"] = "vectors", rand_rotation(rng)
+    return rec
 
 
 def run(ctx):
